@@ -4,6 +4,7 @@ from __future__ import annotations
 
 import json
 import pathlib
+import time
 from typing import Any, Callable, Sequence
 
 from kv import cycle_monitors as cm
@@ -36,7 +37,14 @@ def run_histories(ctx: fw.Ctx, n: int, monitors: Sequence[Callable[[Any, cs.Run]
     scenarios = corpus_scenarios(ctx.prop) + list(extra)
     for i in range(n):
         scenarios.append(gen(ctx.rng, i) if gen is not None else cs.gen_scenario(ctx.rng, daemons=(i % 3 == 0)))
-    for sc in scenarios:
+    t0 = time.monotonic()
+    for k, sc in enumerate(scenarios):
+        # A tree that already fails need not be explored to the end (broken trees can make every scenario very slow):
+        # with violations in hand, stop after 20 of them or after 4 minutes. Never cuts a run that has found nothing.
+        if ctx.failures and (len(ctx.failures) >= 20 or time.monotonic() - t0 > 240):
+            ctx.count('history', f'cut-short-after-violations')
+            ctx.cov['histories_skipped_after_violations'] = len(scenarios) - k
+            break
         run = cs.run_scenario(sc, horizon=horizon)
         try:
             w = run.world
